@@ -59,6 +59,7 @@
 #include "uncrustify_version.h"
 #include "unicode.h"
 #include "universalindentgui.h"
+#include "verif_trace.h"
 #include "width.h"
 
 #include <cerrno>
@@ -426,6 +427,9 @@ int main(int argc, char *argv[])
    cpd.unc_off_used = false;
 
    setup_crash_handling();
+#ifdef UNC_VERIF
+   atexit(verif::exit_event);
+#endif
 
    // Build options map
    register_options();
@@ -1041,6 +1045,9 @@ int main(int argc, char *argv[])
 
       // Issue #3427
       init_keywords_for_language();
+#ifdef UNC_VERIF
+      verif::file_event("FileStart", cpd.filename.c_str());
+#endif
       uncrustify_file(fm, stdout, parsed_file, dump_file_name, is_quiet);
    }
    else if (source_file != nullptr)
@@ -1550,6 +1557,9 @@ static void do_source_file(const char *filename_in,
    init_keywords_for_language();
 
    cpd.filename = filename_in;
+#ifdef UNC_VERIF
+   verif::file_event("FileStart", filename_in);
+#endif
 
    /*
     * If we're only going to write on an actual change, then build the output
@@ -1972,6 +1982,9 @@ static void uncrustify_start(const deque<int> &data)
 {
    // Parse the text into chunks
    tokenize(data, Chunk::NullChunkPtr);
+#ifdef UNC_VERIF
+   verif::dump_chunks("Tokenized");
+#endif
    PROT_THE_LINE
 
    cpd.unc_stage = unc_stage_e::HEADER;
@@ -1988,12 +2001,14 @@ static void uncrustify_start(const deque<int> &data)
    if (!cpd.file_hdr.data.empty())
    {
       add_file_header();
+      VSTEP("add_file_header");
    }
 
    // Add the file footer
    if (!cpd.file_ftr.data.empty())
    {
       add_file_footer();
+      VSTEP("add_file_footer");
    }
    /*
     * Change certain token types based on simple sequence.
@@ -2002,36 +2017,47 @@ static void uncrustify_start(const deque<int> &data)
     * processing that doesn't need to know level info. (that's very little!)
     */
    tokenize_cleanup();
+   VSTEP("tokenize_cleanup");
 
    /*
     * Detect the brace and paren levels and insert virtual braces.
     * This handles all that nasty preprocessor stuff
     */
    brace_cleanup();
+   VSTEP("brace_cleanup");
 
    parameter_pack_cleanup();
+   VSTEP("parameter_pack_cleanup");
 
    // At this point, the level information is available and accurate.
 
    if (language_is_set(lang_flag_e::LANG_PAWN))
    {
       pawn_prescan();
+      VSTEP("pawn_prescan");
    }
    mark_question_colon();
+   VSTEP("mark_question_colon");
 
    // Re-type chunks, combine chunks
    fix_symbols();
+   VSTEP("fix_symbols");
 
    tokenize_trailing_return_types();
+   VSTEP("tokenize_trailing_return_types");
 
    mark_comments();
+   VSTEP("mark_comments");
 
    // Look at all colons ':' and mark labels, :? sequences, etc.
    combine_labels();
+   VSTEP("combine_labels");
 
    enum_cleanup();
+   VSTEP("enum_cleanup");
 
    mark_functor();
+   VSTEP("mark_functor");
 } // uncrustify_start
 
 
@@ -2118,10 +2144,12 @@ void uncrustify_file(const file_mem &fm, FILE *pfout, const char *parsed_file,
       log_rule_B("cmt_insert_function_header");
 
       add_func_header(CT_FUNC_DEF, cpd.func_hdr);
+      VSTEP("add_func_header");
 
       if (options::cmt_insert_before_ctor_dtor())
       {
          add_func_header(CT_FUNC_CLASS_DEF, cpd.func_hdr);
+         VSTEP("add_func_header");
       }
    }
 
@@ -2129,29 +2157,35 @@ void uncrustify_file(const file_mem &fm, FILE *pfout, const char *parsed_file,
    {
       log_rule_B("cmt_insert_class_header");
       add_func_header(CT_CLASS, cpd.class_hdr);
+      VSTEP("add_func_header");
    }
 
    if (!cpd.oc_msg_hdr.data.empty())
    {
       log_rule_B("cmt_insert_oc_message_header");
       add_msg_header(CT_OC_MSG_DECL, cpd.oc_msg_hdr);
+      VSTEP("add_msg_header");
    }
    do_parent_for_pp();
+   VSTEP("do_parent_for_pp");
 
    // Rewrite infinite loops
    if (options::mod_infinite_loop())
    {
       log_rule_B("mod_infinite_loop");
       rewrite_infinite_loops();
+      VSTEP("rewrite_infinite_loops");
    }
    // Change virtual braces into real braces
    do_braces();
+   VSTEP("do_braces");
 
    // Scrub extra semicolons
    if (options::mod_remove_extra_semicolon())
    {
       log_rule_B("mod_remove_extra_semicolon");
       remove_extra_semicolons();
+      VSTEP("remove_extra_semicolons");
    }
 
    // Remove unnecessary returns
@@ -2159,6 +2193,7 @@ void uncrustify_file(const file_mem &fm, FILE *pfout, const char *parsed_file,
    {
       log_rule_B("mod_remove_empty_return");
       remove_extra_returns();
+      VSTEP("remove_extra_returns");
    }
 
    // Add or remove redundant 'int' keyword of integer types
@@ -2182,6 +2217,7 @@ void uncrustify_file(const file_mem &fm, FILE *pfout, const char *parsed_file,
       log_rule_B("mod_int_unsigned");
       log_rule_B("mod_unsigned_int");
       change_int_types();
+      VSTEP("change_int_types");
    }
 
    // Remove duplicate include
@@ -2189,11 +2225,15 @@ void uncrustify_file(const file_mem &fm, FILE *pfout, const char *parsed_file,
    {
       log_rule_B("mod_remove_duplicate_include");
       remove_duplicate_include();
+      VSTEP("remove_duplicate_include");
    }
    // Add parens
    do_parens();
+   VSTEP("do_parens");
    do_parens_assign();
+   VSTEP("do_parens_assign");
    do_parens_return();
+   VSTEP("do_parens_return");
 
    // Modify line breaks as needed
    bool first = true;
@@ -2203,6 +2243,7 @@ void uncrustify_file(const file_mem &fm, FILE *pfout, const char *parsed_file,
    {
       log_rule_B("nl_remove_extra_newlines");
       newlines_remove_newlines();
+      VSTEP("newlines_remove_newlines");
    }
    cpd.pass_count = 3;
 
@@ -2215,41 +2256,53 @@ void uncrustify_file(const file_mem &fm, FILE *pfout, const char *parsed_file,
       LOG_FMT(LNEWLINE, "Newline loop start: %d\n", cpd.changes);
 
       annotations_newlines();
+      VSTEP("annotations_newlines");
       newlines_cleanup_dup();
+      VSTEP("newlines_cleanup_dup");
       newlines_sparens();
+      VSTEP("newlines_sparens");
       newlines_cleanup_braces(first);
+      VSTEP("newlines_cleanup_braces");
       newlines_cleanup_angles();                           // Issue #1167
+      VSTEP("newlines_cleanup_angles");
 
       if (options::nl_after_multiline_comment())
       {
          log_rule_B("nl_after_multiline_comment");
          newline_after_multiline_comment();
+         VSTEP("newline_after_multiline_comment");
       }
 
       if (options::nl_after_label_colon())
       {
          log_rule_B("nl_after_label_colon");
          newline_after_label_colon();
+         VSTEP("newline_after_label_colon");
       }
       newlines_insert_blank_lines();
+      VSTEP("newlines_insert_blank_lines");
 
       if (options::pos_bool() != TP_IGNORE)
       {
          log_rule_B("pos_bool");
          newlines_chunk_pos(CT_BOOL, options::pos_bool());
+         VSTEP("newlines_chunk_pos");
       }
 
       if (options::pos_compare() != TP_IGNORE)
       {
          log_rule_B("pos_compare");
          newlines_chunk_pos(CT_COMPARE, options::pos_compare());
+         VSTEP("newlines_chunk_pos");
       }
 
       if (options::pos_conditional() != TP_IGNORE)
       {
          log_rule_B("pos_conditional");
          newlines_chunk_pos(CT_COND_COLON, options::pos_conditional());
+         VSTEP("newlines_chunk_pos");
          newlines_chunk_pos(CT_QUESTION, options::pos_conditional());
+         VSTEP("newlines_chunk_pos");
       }
 
       if (  options::pos_comma() != TP_IGNORE
@@ -2258,50 +2311,64 @@ void uncrustify_file(const file_mem &fm, FILE *pfout, const char *parsed_file,
          log_rule_B("pos_comma");
          log_rule_B("pos_enum_comma");
          newlines_chunk_pos(CT_COMMA, options::pos_comma());
+         VSTEP("newlines_chunk_pos");
       }
 
       if (options::pos_assign() != TP_IGNORE)
       {
          log_rule_B("pos_assign");
          newlines_chunk_pos(CT_ASSIGN, options::pos_assign());
+         VSTEP("newlines_chunk_pos");
       }
 
       if (options::pos_arith() != TP_IGNORE)
       {
          log_rule_B("pos_arith");
          newlines_chunk_pos(CT_ARITH, options::pos_arith());
+         VSTEP("newlines_chunk_pos");
          newlines_chunk_pos(CT_CARET, options::pos_arith());
+         VSTEP("newlines_chunk_pos");
       }
 
       if (options::pos_shift() != TP_IGNORE)
       {
          log_rule_B("pos_shift");
          newlines_chunk_pos(CT_SHIFT, options::pos_shift());
+         VSTEP("newlines_chunk_pos");
       }
       newlines_class_colon_pos(CT_CLASS_COLON);
+      VSTEP("newlines_class_colon_pos");
       newlines_class_colon_pos(CT_CONSTR_COLON);
+      VSTEP("newlines_class_colon_pos");
 
       if (options::nl_squeeze_ifdef())
       {
          log_rule_B("nl_squeeze_ifdef");
          newlines_squeeze_ifdef();
+         VSTEP("newlines_squeeze_ifdef");
       }
 
       if (options::nl_squeeze_paren_close())
       {
          log_rule_B("nl_squeeze_paren_close");
          newlines_squeeze_paren_close();
+         VSTEP("newlines_squeeze_paren_close");
       }
       do_blank_lines();
+      VSTEP("do_blank_lines");
       newlines_eat_start_end();
+      VSTEP("newlines_eat_start_end");
       newlines_functions_remove_extra_blank_lines();
+      VSTEP("newlines_functions_remove_extra_blank_lines");
       newlines_cleanup_dup();
+      VSTEP("newlines_cleanup_dup");
       first = false;
       dump_step(dump_file, "Inside first while loop");
    } while (  old_changes != cpd.changes
            && cpd.pass_count-- > 0);
 
    mark_comments();
+   VSTEP("mark_comments");
 
    // Scrub certain added semicolons
    if (  language_is_set(lang_flag_e::LANG_PAWN)
@@ -2309,6 +2376,7 @@ void uncrustify_file(const file_mem &fm, FILE *pfout, const char *parsed_file,
    {
       log_rule_B("mod_pawn_semicolon");
       pawn_scrub_vsemi();
+      VSTEP("pawn_scrub_vsemi");
    }
 
    // Sort imports/using/include
@@ -2320,19 +2388,24 @@ void uncrustify_file(const file_mem &fm, FILE *pfout, const char *parsed_file,
       log_rule_B("mod_sort_include");
       log_rule_B("mod_sort_using");
       sort_imports();
+      VSTEP("sort_imports");
    }
    // Fix same-line inter-chunk spacing
    space_text();
+   VSTEP("space_text");
 
    if (options::align_pp_define_span() > 0)
    {
       // Do any aligning of preprocessors
       log_rule_B("align_pp_define_span");
       align_preprocessor();
+      VSTEP("align_preprocessor");
    }
    // Indent the text
    indent_preproc();
+   VSTEP("indent_preproc");
    indent_text();
+   VSTEP("indent_text");
 
    // Insert trailing comments after certain close braces
    if (  (options::mod_add_long_switch_closebrace_comment() > 0)
@@ -2345,6 +2418,7 @@ void uncrustify_file(const file_mem &fm, FILE *pfout, const char *parsed_file,
       log_rule_B("mod_add_long_class_closebrace_comment");
       log_rule_B("mod_add_long_namespace_closebrace_comment");
       add_long_closebrace_comment();
+      VSTEP("add_long_closebrace_comment");
    }
 
    // Insert trailing comments after certain preprocessor conditional blocks
@@ -2354,6 +2428,7 @@ void uncrustify_file(const file_mem &fm, FILE *pfout, const char *parsed_file,
       log_rule_B("mod_add_long_ifdef_else_comment");
       log_rule_B("mod_add_long_ifdef_endif_comment");
       add_long_preprocessor_conditional_block_comment();
+      VSTEP("add_long_preprocessor_conditional_block_comment");
    }
    // Align everything else, reindent and break at code_width
    first = true;
@@ -2363,7 +2438,9 @@ void uncrustify_file(const file_mem &fm, FILE *pfout, const char *parsed_file,
    do
    {
       align_all();
+      VSTEP("align_all");
       indent_text();
+      VSTEP("indent_text");
       old_changes = cpd.changes;
 
       if (options::code_width() > 0)
@@ -2385,15 +2462,20 @@ void uncrustify_file(const file_mem &fm, FILE *pfout, const char *parsed_file,
             }
          }
          do_code_width();
+         VSTEP("do_code_width");
 
          if (  old_changes != cpd.changes
             && first)
          {
             // retry line breaks caused by splitting 1-liners
             newlines_cleanup_braces(false);
+            VSTEP("newlines_cleanup_braces");
             newlines_insert_blank_lines();
+            VSTEP("newlines_insert_blank_lines");
             newlines_functions_remove_extra_blank_lines();
+            VSTEP("newlines_functions_remove_extra_blank_lines");
             newlines_remove_disallowed();
+            VSTEP("newlines_remove_disallowed");
             first = false;
          }
       }
@@ -2402,11 +2484,13 @@ void uncrustify_file(const file_mem &fm, FILE *pfout, const char *parsed_file,
 
    // And finally, align the backslash newline stuff
    align_right_comments();
+   VSTEP("align_right_comments");
 
    if (options::align_nl_cont())
    {
       log_rule_B("align_nl_cont");
       align_backslash_newline();
+      VSTEP("align_backslash_newline");
    }
    dump_step(dump_file, "Final version");
 
@@ -2414,6 +2498,10 @@ void uncrustify_file(const file_mem &fm, FILE *pfout, const char *parsed_file,
    if (cpd.html_file == nullptr)
    {
       // Now render it all to the output file
+#ifdef UNC_VERIF
+      verif::dump_chunks("PreOutput");
+      verif::st().in_output = true;
+#endif
       output_text(pfout);
    }
    else
@@ -2518,6 +2606,10 @@ void uncrustify_end()
    cpd.preproc_ncnl_count                     = 0;
    cpd.ifdef_over_whole_file                  = 0;
    cpd.warned_unable_string_replace_tab_chars = false;
+#ifdef UNC_VERIF
+   verif::st().in_output = false;
+   verif::file_event("FileEnd", cpd.filename.c_str());
+#endif
 }
 
 
